@@ -820,6 +820,7 @@ class TextEngine:
             return [Violation("C20", "raises", name, feats, type(e).__name__, f"{type(e).__name__}: {e}")]
         self._outcome = name + ":ok"
         self.stats.transitions.add((name, op.get("level"), self.outline, len(self.headings) > 3))
+        self.stats.states.add(hashlib.sha1(repr((self.headings, self.outline, self.has_toc)).encode()).hexdigest()[:12])
         return []
 
     @staticmethod
